@@ -126,7 +126,11 @@ class BroadcastTo(ArrayExpr):
             input_axis,
             shuffle_expr.operand("name"),
         )
-        return BroadcastTo(shuffled_input, self._shape, self._chunks, self._meta)
+        # A take-style indexer changes the extent and chunking along the axis,
+        # so re-derive them from the shuffled input instead of reusing ours.
+        shape = tuple(self._shape[:axis]) + (shuffled_input.shape[input_axis],) + tuple(self._shape[axis + 1 :])
+        chunks = tuple(self._chunks[:axis]) + (shuffled_input.chunks[input_axis],) + tuple(self._chunks[axis + 1 :])
+        return BroadcastTo(shuffled_input, shape, chunks, self._meta)
 
     def _accept_slice(self, slice_expr):
         """Accept a slice being pushed through BroadcastTo.
